@@ -271,7 +271,7 @@ def exhaustive(ctx):
     evg = evaluator(m, opaque={'_ogd_init_fn', '_ogd_update_fn', '_diag_adagrad_init_fn', '_diag_adagrad_update_fn', '_fd_init_fn', '_fd_update_fn'})
     hp = _hp(m, ev0, mem)
     r = evg.run(fg, args={'hparams': hp})
-    ok = r.op == 'tuple' and len(r.args) == 2 and all(x.op == 'closure' for x in r.args)
+    ok = r.op == 'tuple' and len(r.args) == 2 and all(x.op in ('closure', 'partial', 'bound') for x in r.args)
     if ok:
       i_t = evg.call(r.args[0], [], {}, None, None)
       u_t = evg.call(r.args[1], [sym('spec', 's'), sym('spec', 'l'), sym('spec', 'g')], {}, None, None)
